@@ -201,6 +201,35 @@ def table_template():
     return _tt["t"]
 
 
+_lt = {}
+
+
+def locate_template():
+    """Store for the Locate clause: for every policy shape and two object types, one object owned
+    by 'owner' and one by 'other' (creation order alternates), so that each (policy, type) pair
+    holds objects of different owners."""
+    if "t" in _lt:
+        return _lt["t"]
+    db, policies, shapes, index, helpers = table_template()
+    H.CLOCK.now = 1_651_000_000
+    srv = H.Server(policies=policies)
+    pnames = ["p%d" % i for i in range(len(shapes))] + ["missing", "default", "public"]
+    objs = {}    # uid -> (policy, type, owner)
+    for i, pn in enumerate(pnames):
+        for t in ("SymmetricKey", "Certificate", "OpaqueData"):
+            order = ("owner", "other") if i % 2 == 0 else ("other", "owner")
+            for who in order:
+                r = H.Client(srv, who).one(F.register_item(t, label=t, extra_attrs=[["Operation Policy Name", pn]]))
+                if r["status"] != "SUCCESS":
+                    raise core.HarnessError("locate template: register failed: %r" % (r,))
+                objs[r["payload"]["uid"]] = (pn, t, who)
+    srv.stop()
+    import atexit, shutil
+    atexit.register(shutil.rmtree, srv.dir, True)
+    _lt["t"] = (srv.db, objs)
+    return _lt["t"]
+
+
 def _file_hash(path):
     with open(path, "rb") as f:
         return hashlib.blake2b(f.read(), digest_size=16).digest()
@@ -335,29 +364,30 @@ def table_worker(tier, shard, nshards):
     if srv is not None:
         srv.close()
     if shard == 0:
-        srv = H.Server(policies=policies, template=db)
-        rev = {u: k for k, u in index.items()}
+        ldb, lobjs = locate_template()
+        srv = H.Server(policies=policies, template=ldb)
         for who in ("owner", "other"):
             for g in GROUP_INFOS:
-                cli = H.Client(srv, who, g, (1, 2))
-                r = cli.one({"op": "Locate"})
-                listed = set(r["payload"]["uids"]) if r["payload"] else set()
-                bad = []
-                for u in listed:
-                    if u not in rev:
-                        continue
-                    pn, t = rev[u]
-                    if pn[0] == "p" and pn[1:].isdigit():
-                        shape = shapes[int(pn[1:])]
-                    elif pn == "missing":
-                        shape = None
-                    else:
-                        shape = {"preset": builtin_variant(pn, t, enums.Operation.LOCATE), "groups": None}
-                    if model_allowed(shape, who, g, "owner") is False:
-                        bad.append((u, pn, t))
-                spec = {"locate-as": who, "groups": g}
-                col.record(spec, nontrivial=True, classes=["op:Locate"],
-                           buckets=[("C03|locate-lists-object-denied-to-requester", repr(bad[:5]))] if bad else [])
+                for filt in (None, ["Object Type", "SymmetricKey"], ["Object Type", "Certificate"]):
+                    cli = H.Client(srv, who, g, (1, 2))
+                    r = cli.one({"op": "Locate"} if filt is None else {"op": "Locate", "attrs": [filt]})
+                    listed = set(r["payload"]["uids"]) if r["payload"] else set()
+                    bad = []
+                    for u in listed:
+                        if u not in lobjs:
+                            continue
+                        pn, t, owner = lobjs[u]
+                        if pn[0] == "p" and pn[1:].isdigit():
+                            shape = shapes[int(pn[1:])]
+                        elif pn == "missing":
+                            shape = None
+                        else:
+                            shape = {"preset": builtin_variant(pn, t, enums.Operation.LOCATE), "groups": None}
+                        if model_allowed(shape, who, g, owner) is False:
+                            bad.append((u, pn, t, owner))
+                    spec = {"locate-as": who, "groups": g, "filter": filt}
+                    col.record(spec, nontrivial=True, classes=["op:Locate"],
+                               buckets=[("C03|locate-lists-object-denied-to-requester", repr(bad[:5]))] if bad else [])
         srv.close()
     return col
 
@@ -405,15 +435,18 @@ def gen_history(draw):
     npol = draw(st.integers(1, 3))
     pols = {"q%d" % i: draw(gen_policy()) for i in range(npol)}
     pnames = list(pols) + ["default", "public", "missing"]
+    # small per-history pools, so that several objects share (policy, type) with different owners
+    pnames = draw(st.lists(st.sampled_from(pnames), min_size=1, max_size=3, unique=True))
+    tpool = draw(st.lists(st.sampled_from(H.OBJECT_TYPES), min_size=1, max_size=3, unique=True))
     steps = []
     n = draw(st.integers(3, 14))
     nobj = 0
     for _ in range(n):
         who = draw(st.sampled_from(USERS))
         groups = draw(st.sampled_from([None, None, [], ["g1"], ["g2"], ["g1", "g2"], ["g3"]]))
-        kind = draw(st.sampled_from(["create", "create", "op", "op", "op", "locate", "batch"])) if nobj else "create"
+        kind = draw(st.sampled_from(["create", "create", "op", "op", "op", "locate", "locate", "batch"])) if nobj else "create"
         if kind == "create":
-            t = draw(st.sampled_from(H.OBJECT_TYPES))
+            t = draw(st.sampled_from(tpool))
             steps.append({"who": who, "groups": groups, "kind": "create", "otype": t,
                           "policy": draw(st.sampled_from(pnames))})
             nobj += 1
@@ -424,7 +457,7 @@ def gen_history(draw):
             steps.append({"who": who, "groups": groups, "kind": "locate"})
         else:
             # batch: register under a policy, then address the new object through the ID placeholder
-            t = draw(st.sampled_from(H.OBJECT_TYPES))
+            t = draw(st.sampled_from(tpool))
             steps.append({"who": who, "groups": groups, "kind": "batch", "otype": t,
                           "policy": draw(st.sampled_from(pnames)),
                           "op": draw(st.sampled_from(["Get", "GetAttributes", "GetAttributeList", "Destroy", "Encrypt", "MAC", "Sign"]))})
@@ -617,12 +650,39 @@ def replay(spec):
     if "steps" in spec:
         return run_history(spec)[0]
     if "locate-as" in spec:
-        return []
+        return replay_locate(spec)
     return run_cell(spec)[0]
+
+
+def replay_locate(spec):
+    db, policies, shapes, index, helpers = table_template()
+    ldb, lobjs = locate_template()
+    srv = H.Server(policies=policies, template=ldb)
+    try:
+        who, g, filt = spec["locate-as"], spec["groups"], spec.get("filter")
+        r = H.Client(srv, who, g, (1, 2)).one({"op": "Locate"} if filt is None else {"op": "Locate", "attrs": [filt]})
+        listed = set(r["payload"]["uids"]) if r["payload"] else set()
+        bad = []
+        for u in listed:
+            if u not in lobjs:
+                continue
+            pn, t, owner = lobjs[u]
+            if pn[0] == "p" and pn[1:].isdigit():
+                shape = shapes[int(pn[1:])]
+            elif pn == "missing":
+                shape = None
+            else:
+                shape = {"preset": builtin_variant(pn, t, enums.Operation.LOCATE), "groups": None}
+            if model_allowed(shape, who, g, owner) is False:
+                bad.append(u)
+        return [("C03|locate-lists-object-denied-to-requester", repr(bad[:5]))] if bad else []
+    finally:
+        srv.close()
 
 
 def run(ctx):
     table_template()        # built in the parent, inherited by the forked shards
+    locate_template()
     n = core.NCPU
     dicts = core.run_sharded("vlib.props.c03", "table_worker", [(ctx.tier, i, n) for i in range(n)])
     nh = ctx.n(800, 8000)
